@@ -57,7 +57,6 @@ def inventory(prog, entries_extra=(), log_settings=(True, False)):
             for f in impls:
                 if f["impl"].get("automatically_derived"):
                     generated.append(f["name"])
-                    continue
                 inv.run_entry(f)
     return inv, pm[0], bus[0], generated
 
@@ -77,12 +76,11 @@ def run_c12(chk, prog):
                key="panic-site:%s" % o.key, where=o.where, detail=None if ok else o.failed[0])
     chk.extra["panic_sites_by_kind"] = kinds
     chk.extra["paths_enumerated"] = inv.paths
-    chk.extra["generated_fmt_impls_trusted"] = sorted(set(generated))
+    chk.extra["generated_fmt_impls_analysed"] = sorted(set(generated))
     chk.note_analysed("functions", sorted(inv.functions))
     chk.floor("C12", "panic-capable sites inventoried", n, 20)
     handlers = [f for f in inv.functions if "VirtualSign::<'_>::" in f]
     chk.floor("C12", "VirtualSign handler functions reached", len(handlers), 12)
     chk.assumptions.append("allocation failure / capacity overflow are outside the property")
-    chk.assumptions.append("derive-generated fmt impls (automatically_derived) only forward to their fields' impls")
     for o in list(inv.obs.values())[:8]:
         chk.sample({"site": o.where, "fn": o.fn, "kind": o.kind, "what": o.desc, "discharged_by": o.discharged})
